@@ -1,8 +1,23 @@
 ------------------------------ MODULE AsideGen ------------------------------
 (* Root module of the Aside.tla configurations; scenario generation in simulation mode with Record = TRUE: every
-   behaviour is printed once, when its history reaches GenLen steps or nothing is enabled any more. *)
+   behaviour is printed once, when its history reaches GenLen steps or nothing is enabled any more.
+   CO_*: caller -> client maps for the configurations (ClientOf <- CO_..).
+   NilCases: exhaustive generation of Gets without a loader at every state of the key (see MC_aside_nilgen.cfg). *)
 EXTENDS Aside, Json
 CONSTANT GenLen
+CO_id == [p \in Procs |-> p]
+CO_11 == <<1, 1>>
+CO_112 == <<1, 1, 2>>
+CO_1123 == <<1, 1, 2, 3>>
+CO_1223 == <<1, 2, 2, 3>>
 GenEmit == (Len(hist) = GenLen \/ (Len(hist) < GenLen /\ Len(hist) > 3 /\ ~ENABLED Next)) => PrintT(<<"CASE", ToJson(hist)>>)
 GenStop == Len(hist) <= GenLen
+
+\* ---- Gets without a loader at every state of the key: exhaustive, Record = TRUE; a behaviour is printed when a Get
+\* without a loader has just returned. Its Read records carry the state of the key it met (s: nil / phlive / phdead / v), the
+\* returning record what the specification lets it return (r: nil error / val / err).
+NilEmit == (Len(hist) > 0 /\ hist[Len(hist)].r # "" /\ hist[Len(hist)].p \in NilProcs) => PrintT(<<"CASE", ToJson(hist)>>)
+\* (simulation is steered to the interesting part: at most two such Gets, the holder dies only with the lock taken)
+NilStop == /\ Len(hist) <= GenLen /\ Cardinality({i \in 1..Len(hist) : hist[i].a = "GetNil"}) <= 2
+           /\ (dead = {} \/ nloads > 0)
 =============================================================================
